@@ -21,20 +21,20 @@ type kvPair struct {
 }
 
 type c16SL struct {
-	Cmp     string     `json:"cmp"` // int | string | bytes
-	Ins     []kvPair   `json:"ins"`
-	Probes  [][]byte   `json:"probes"`
+	Cmp     string      `json:"cmp"` // int | string | bytes
+	Ins     []kvPair    `json:"ins"`
+	Probes  [][]byte    `json:"probes"`
 	Bounds  [][2][]byte `json:"bounds"`
-	Heights []int      `json:"heights"`
+	Heights []int       `json:"heights"`
 	// observations
-	Size     int          `json:"size"`
-	Gets     []*kvPair    `json:"gets"` // nil = not found
-	Contains []bool       `json:"contains"`
-	All      []kvPair     `json:"all"`
-	Froms    [][]kvPair   `json:"froms"`
-	Betw     [][]kvPair   `json:"betw"`
-	BetwErr  []bool       `json:"betw_err"`
-	Panic    string       `json:"panic,omitempty"`
+	Size     int        `json:"size"`
+	Gets     []*kvPair  `json:"gets"` // nil = not found
+	Contains []bool     `json:"contains"`
+	All      []kvPair   `json:"all"`
+	Froms    [][]kvPair `json:"froms"`
+	Betw     [][]kvPair `json:"betw"`
+	BetwErr  []bool     `json:"betw_err"`
+	Panic    string     `json:"panic,omitempty"`
 }
 
 func encInt(i int64) []byte {
@@ -706,8 +706,8 @@ func init() {
 			}
 			return out
 		},
-		New:       func() Case { return &c16Any{} },
-		Num:       16,
+		New: func() Case { return &c16Any{} },
+		Num: 16,
 		Rule: "skip list: all permutations of up to 6 (quick) / 7 (thorough) distinct keys plus random maps, three comparators, probes incl. absent keys and bounds incl. lower>upper; " +
 			"heap: random lists of ascending inputs with duplicates across inputs, every 5th with an injected iterator fault. " +
 			"Non-trivial: skip list with >=3 keys, >=2 probes, >=1 bound pair; heap with >=2 non-empty inputs. Distinct = distinct hash of the full case.",
